@@ -32,7 +32,7 @@ GOLDEN = common.VERIF / "corpus" / "golden_identifiers.json"
 
 def prove(ctx):
     msgs = [hashflags.generate(common.REPO, common.LEAN, probe=identlib.loop_flag_probe(ctx))]
-    msgs.append(argflags.generate(common.REPO, common.LEAN))   # Generated/ArgFlags.lean: the driver derives the argument flags with it
+    msgs.append(argflags.generate(common.REPO, common.LEAN, probe=identlib.inherit_rule_probe(ctx)))   # Generated/ArgFlags.lean: the driver derives the argument flags with it
     ctx.notes.append(f"translator(argflags): {msgs[-1][1]}")
     ctx.notes.append(f"translator(hashflags): {msgs[0][1]}")
     common.check_proofs(ctx, MODULES, translate_msgs=msgs)
